@@ -548,10 +548,11 @@ def _compose_qoperations_MProcess_MProcess(
     )
 
     hss = []
+    # elem2 acts first (as for every other pair): its outcome is the major index
     for hs2 in elem2.hss:
         for hs1 in elem1.hss:
-            hss.append(hs2 @ hs1)
-    shape = elem1.shape + elem2.shape
+            hss.append(hs1 @ hs2)
+    shape = elem2.shape + elem1.shape
 
     mprocess = MProcess(
         elem1.composite_system,
